@@ -167,6 +167,107 @@ def _culprit(spec):
     return "other"
 
 
+def seqkeys_stream(ctx, drv):
+    """ties Model/SeqKeys.lean (decimal keys, isdigit/int parse, length reconstruction, lookup loop —
+    the layer `Model/Serialize.lean` abstracts to positional children and `seqDecode_keyed_perm`
+    proves sound) to the real `_serialize_container` / `_deserialize_container`: the keys the real
+    code writes for a sequence, and what it rebuilds from a group whose element keys are partly
+    missing / accompanied by other keys"""
+    import pathlib
+    import numpy as np
+    import zarr
+    from quantem.core.io.serialize import AutoSerialize
+
+    class _K(AutoSerialize):
+        pass
+
+    rng = ctx.rng.fork(777001)
+    ns = [0, 1, 9, 10, 11, 19, 20, 99, 100, 101, 999, 1000, 12345] + [rng.randint(0, 10 ** 6) for _ in range(20)]
+    r = drv.ask({"op": "dec", "ns": ns})
+    ctx.count()
+    if r.get("ok") != [str(n) for n in ns]:
+        ctx.disagree("seqkeys-dec", {"seqkeys": "dec", "ns": ns}, r.get("ok"), [str(n) for n in ns], note="str(n)")
+
+    def mk(i, kind):
+        return {"str": f"s{i}", "arr": np.array([i, i]), "list": [i, "x"], "tuple": (i, "t"), "path": pathlib.Path(f"p{i}"),
+                "dict": {"i": i, "k": "v"}}[kind]
+
+    def index_of(v):
+        if isinstance(v, str):
+            return int(v[1:])
+        if isinstance(v, pathlib.PurePath):
+            return int(str(v)[1:])
+        if isinstance(v, np.ndarray):
+            return int(v[0])
+        if isinstance(v, dict):
+            return int(v["i"])
+        return int(v[0])
+
+    for j in range(ctx.n(80, 800)):
+        n = rng.choice([0, 1, 2, 9, 10, 11, 12, 21, 101]) if rng.chance(0.5) else rng.randint(0, 30)
+        kinds = [rng.choice(["str", "arr", "list", "tuple", "path", "dict"]) for _ in range(n)]
+        value = [mk(i, k) for i, k in enumerate(kinds)]
+        if rng.chance(0.3):
+            value = tuple(value)
+        g = zarr.group(store=zarr.storage.MemoryStore())
+        _K()._serialize_container(value, g, set(), (), None)
+        all_keys = lambda: list(g.attrs) + list(g.array_keys()) + list(g.group_keys())  # noqa: E731
+        digit = sorted(k for k in all_keys() if k.isdigit())
+        case = {"seqkeys": "group", "n": n, "kinds": kinds, "tuple": isinstance(value, tuple)}
+        ctx.count()
+        want = drv.ask({"op": "dec", "ns": list(range(n))}).get("ok")
+        if digit != sorted(want):
+            ctx.disagree("seqkeys-written", case, sorted(want), digit, note="element keys written by _serialize_container")
+        # delete some element keys, add other keys
+        removed = []
+        mode = rng.choice(["intact", "intact", "one", "some", "tail"])
+        if n and mode != "intact":
+            if mode == "one":
+                removed = [rng.below(n)]
+            elif mode == "tail":
+                removed = list(range(rng.below(n), n))
+            else:
+                removed = [i for i in range(n) if rng.chance(0.3)]
+            for i in removed:
+                k = str(i)
+                if k in g.attrs:
+                    del g.attrs[k]
+                    if k + ".is_path" in g.attrs:
+                        del g.attrs[k + ".is_path"]
+                else:
+                    del g[k]
+        extras = []
+        if rng.chance(0.4):
+            for k in rng.sample(["note", "x1", "1x", "-1", "1.5", "007", "0012", " 3", "3 ", ""], rng.randint(1, 3)):
+                if k == "":
+                    continue
+                g.attrs[k] = 49
+                extras.append(k)
+        case.update({"removed": removed, "extras": extras})
+        keys = all_keys()
+        m = drv.ask({"op": "seqdecode", "keys": keys}).get("ok")
+        try:
+            back = AutoSerialize._deserialize_container(g)
+            impl = [(49 if (isinstance(v, int) and v == 49) else index_of(v)) for v in back]
+            err = None
+        except KeyError as e:
+            impl, err = "KeyError", e
+        except Exception as e:  # noqa
+            impl, err = "raised:" + type(e).__name__, e
+        ctx.count()
+        mf = (m or {}).get("found")
+        model_found = mf if isinstance(mf, str) else [int(k) for k in mf]
+        if model_found != impl:
+            ctx.disagree("seqkeys-decode", case, {"found": model_found, "len": (m or {}).get("len")}, impl,
+                         note="items rebuilt by _deserialize_container vs Model/SeqKeys.seqDecode")
+        if mode == "intact" and not extras and err is None:
+            if type(back) is not type(value) or [index_of(v) for v in back] != list(range(n)):
+                ctx.pred_fail("seq-roundtrip-intact", "a sequence written element by element is not rebuilt in order", case,
+                              observed=[index_of(v) for v in back], required=list(range(n)))
+        ctx.mark(("seqkeys", min(n, 12), mode, bool(extras)))
+        ctx.dist[f"seqkeys:{mode}"] += 1
+
+
 def run(ctx):
     from qv.driver import Driver
     drv = Driver("C01")
@@ -179,6 +280,7 @@ def run(ctx):
                 c = json.load(open(os.path.join(cdir, f)))
                 check_case(ctx, drv, c["recipe"], c["cfgs"], f"c{idx}")
                 idx += 1
+        seqkeys_stream(ctx, drv)
         # fixed probe of a recorded finding (int/float promotion in the ndarray fast path)
         probe = ["obj", "SA", [["a", ["list", [["scalar", ["int", str(2 ** 62 + 1)]], ["scalar", sc.S(0.5)]]]]]]
         check_case(ctx, drv, probe, [gen_cfg(ctx.rng.fork(999), "zip")], "probe")
@@ -205,6 +307,9 @@ def replay(ctx, rep):
     case = rep.get("case") or rep["correspondence_disagreements"][0]["case"]
     drv = Driver("C01")
     try:
+        if case.get("seqkeys"):
+            seqkeys_stream(ctx, drv)
+            return True
         check_case(ctx, drv, case["recipe"], case["cfgs"], "replay")
     finally:
         drv.close()
